@@ -15,18 +15,18 @@ import (
 )
 
 type mutant struct {
-	Name   string `json:"name"`
-	File   string `json:"file"`
-	Old    string `json:"old"`
-	New    string `json:"new"`
-	More   []struct {
+	Name string `json:"name"`
+	File string `json:"file"`
+	Old  string `json:"old"`
+	New  string `json:"new"`
+	More []struct {
 		Old string `json:"old"`
 		New string `json:"new"`
 	} `json:"more"` // further replacements in the same file (e.g. an import that becomes unused)
 	ReplaceAll bool     `json:"replace_all"` // replace every occurrence of Old (benign renames)
 	Props      []string `json:"props"`       // benign refactorings: the properties whose checks must stay silent
-	Expect string `json:"expect_rule"` // substring of the rule id expected in the report
-	Note   string `json:"note"`
+	Expect     string   `json:"expect_rule"` // substring of the rule id expected in the report
+	Note       string   `json:"note"`
 }
 
 type mutantResult struct {
@@ -197,15 +197,17 @@ func runSensitivity(r *Report) {
 	sort.Strings(seeds)
 	for _, mf := range seeds {
 		var meta struct {
-			ID       string `json:"id"`
-			Prop     string `json:"breaks_property"`
-			Detected string `json:"detected_by"`
+			ID        string `json:"id"`
+			Prop      string `json:"breaks_property"`
+			Detected  string `json:"detected_by"`
+			OwnSilent bool   `json:"own_checks_silent"` // detected by another property's check only
 		}
 		b, err := os.ReadFile(mf)
 		if err != nil || json.Unmarshal(b, &meta) != nil || strings.HasPrefix(meta.Detected, "NOT DETECTED") {
 			continue
 		}
-		if meta.Prop != r.Property && !strings.Contains(meta.Detected, r.Property+".") && !strings.Contains(meta.Detected, r.Property+"/") {
+		named := strings.Contains(meta.Detected, r.Property+".") || strings.Contains(meta.Detected, r.Property+"/")
+		if !named && (meta.Prop != r.Property || meta.OwnSilent) {
 			continue
 		}
 		patch := filepath.Join(filepath.Dir(mf), "patch.diff")
